@@ -18,6 +18,8 @@ from . import sched, vloop
 from .common import Ctx
 from .tlc import MachineryError, run_tlc
 
+import os
+NCPU_ = os.cpu_count() or 4
 BIG = dict(MaxCalls=100000, MaxConn=48, MaxFly=64, MaxKeys=100000)
 
 
@@ -38,6 +40,29 @@ def mc(ctx: Ctx, ver, retries, *, name, timeout=3000, heap="10g", coverage=False
         if never:
             ctx.notes.append(f"{name}: actions never taken in this instance: {never}")
     return r
+
+
+def clause_reachability(ctx: Ctx, pid, *, maxlen=6, versions=(3, 2)):
+    """Non-vacuity of the monitor: every clause of property `pid` in SessionMon.tla must fire for some event sequence
+    (spec/MonVacuity.tla explores arbitrary event sequences over a small alphabet)."""
+    import re
+    from .tlc import SPEC
+    text = (SPEC / "SessionMon.tla").read_text()
+    want = {m.group(2) for m in re.finditer(r'<<"(C\d\d)", "([^"]*)">>', text) if m.group(1) == pid}
+    seen = set()
+    for ver in versions:
+        cfg = (f"INIT Init\nNEXT Next\nINVARIANT Seen\nCHECK_DEADLOCK FALSE\nCONSTANTS\nRetries = 2\nVer = {ver}\nCtrMod = 4\nHSRetries = 1\n"
+               f"DevLevel = TRUE\nMaxLen = {maxlen}\n")
+        r = run_tlc("MonVacuity", cfg, name=f"{pid}_vacuity_v{ver}", workers=NCPU_, timeout=1500, heap="10g")
+        ctx.checker_cmds.append(r.cmd)
+        ctx.states += r.distinct
+        ctx.transitions += r.generated
+        seen |= {p[2] for p in r.prints if isinstance(p, list) and len(p) == 3 and p[0] == "CLAUSE" and p[1] == pid}
+        if want <= seen:
+            break
+    ctx.extra["monitor_clauses_reachable"] = {"clauses": len(want), "fired_by_some_event_sequence": len(want & seen)}
+    if not want <= seen:
+        raise MachineryError(f"monitor clauses of {pid} that no explored event sequence can fire (vacuous?): {sorted(want - seen)}")
 
 
 ACTIONS = {"CallSend", "CallAuth", "ConnOK", "ConnFail", "Deliver", "Lose", "PeerClose", "JumpAuth", "JumpLife", "TimerRead",
